@@ -18,6 +18,54 @@
 import Model.Nested
 
 namespace TM
+
+/-! ### the invariant of C02 (decidable, structural) -/
+
+/-- sibling keys are distinct at every level of a configuration tree -/
+def Forest.WF : Forest → Bool
+  | .nil => true
+  | .cons k s r => !r.keys.contains k && s.WF && r.WF
+
+def SForest.names : SForest → List Nat
+  | .nil => []
+  | .cons d _ rest => d.name :: rest.names
+
+/-- static well-formedness of a `states` dictionary: sibling names distinct; `initial` lists name children,
+without repetition, and are empty, a single child, or all children (the property's "initial substate (or
+parallel children)") -/
+def SForest.WF : SForest → Bool
+  | .nil => true
+  | .cons d kids rest =>
+    !rest.names.contains d.name
+    && d.initial.all kids.names.contains
+    && (d.initial.eraseDups.length == d.initial.length)
+    && (d.initial.length ≤ 1 || kids.names.all d.initial.contains)
+    && kids.WF && rest.WF
+
+/-- a configuration tree is admissible for the definitions `sf`: sibling keys distinct, every key is a defined
+state, a state with active children has one of them or all of them active, and a state without active children
+declares no `initial` -/
+def ConfOK : SForest → Forest → Bool
+  | _, .nil => true
+  | sf, .cons k s r =>
+    !r.keys.contains k
+    && (match sf.find k with
+        | some (d, kids) =>
+          if s.isEmpty then d.initial.isEmpty
+          else (s.len ≤ 1 || kids.names.all s.keys.contains) && ConfOK kids s
+        | none => false)
+    && ConfOK sf r
+
+/-- `p` is the parent of nothing entered yet: every path's parent is `base` or an earlier path -/
+def parentsFirst (base : SPath) : List SPath → List SPath → Bool
+  | _, [] => true
+  | seen, p :: ps => (p.dropLast == base || seen.contains p.dropLast) && parentsFirst base (seen ++ [p]) ps
+
+/-- the scope reached from the machine's own scope by `with self(k)` along `p` -/
+def scopeAt (cfg : NCfg) : SPath → Option Scope
+  | p => p.foldl (fun o k => o.bind fun sc => sc.enter k) (some cfg.root)
+
+
 namespace C02
 
 /-- transitions declared in one scope, with their references -/
@@ -57,12 +105,27 @@ def project (cfg : NCfg) (items : List Item) : List GEv := items.filterMap (proj
 /-- `p` is a proper prefix of `q` -/
 def properPrefix (p q : SPath) : Bool := p.length < q.length && q.take p.length == p
 
+/-- global source of a transition reference -/
+def srcOf (cfg : NCfg) (r : TRef) : Option SPath :=
+  ((allTrans cfg).find? fun e => e.1 = r).map fun e => r.scope ++ e.2.source
+
 structure G where
   live : List SPath
   entered : List SPath := []          -- entered while the current event is processed
+  exited : List SPath := []           -- exited while the current event is processed
+  /-- the source of the transition that is executing: 0 = unknown, 1 = active since the event began,
+      2 = not active, 3 = active but exited and entered again since the event began,
+      4 = this very transition already executed in this event -/
+  cur : Nat := 0
+  execd : List TRef := []             -- transitions executed while the current event is processed
   enteredWhileLive : Bool := false
   exitedWhileDead : Bool := false
   enteredThenExited : Bool := false
+  /-- … by a transition whose source was no longer active / had been re-entered (classification only) -/
+  eteStale : Bool := false
+  eteReentered : Bool := false
+  eteActive : Bool := false
+  eteRepeated : Bool := false
   enterBeforeParent : Bool := false
   exitBeforeChild : Bool := false
   finBad : Bool := false             -- one of the end-of-event checks failed
@@ -92,11 +155,19 @@ def gstep (cfg : NCfg) (g : G) (e : GEv) : G :=
       enterBeforeParent := g.enterBeforeParent || (p.length > 1 && !g.live.contains p.dropLast) }
   | .exit p =>
     { g with
-      live := g.live.erase p,
+      live := g.live.erase p, exited := g.exited ++ [p],
       exitedWhileDead := g.exitedWhileDead || !g.live.contains p,
       enteredThenExited := g.enteredThenExited || g.entered.contains p,
+      eteStale := g.eteStale || (g.entered.contains p && g.cur == 2),
+      eteReentered := g.eteReentered || (g.entered.contains p && g.cur == 3),
+      eteActive := g.eteActive || (g.entered.contains p && g.cur != 2 && g.cur != 3 && g.cur != 4),
+      eteRepeated := g.eteRepeated || (g.entered.contains p && g.cur == 4),
       exitBeforeChild := g.exitBeforeChild || g.live.any fun q => properPrefix p q }
-  | .fin _ mask => { g with entered := [], finBad := g.finBad || !finOk cfg g.live mask }
+  | .exec r =>
+    { g with execd := g.execd ++ [r], cur := if g.execd.contains r then 4 else match srcOf cfg r with
+        | some src => if !g.live.contains src then 2 else if g.exited.contains src then 3 else 1
+        | none => 0 }
+  | .fin _ mask => { g with entered := [], exited := [], cur := 0, execd := [], finBad := g.finBad || !finOk cfg g.live mask }
   | .raised _ (.user _) => { g with halted := true }
   | .raised _ (.base _) => { g with halted := true }
   | _ => g
@@ -111,6 +182,13 @@ def G.clean (g : G) : Bool :=
   !g.enteredWhileLive && !g.exitedWhileDead && !g.enteredThenExited && !g.enterBeforeParent
   && !g.exitBeforeChild && !g.finBad
 
+/-- **the invariant**: the configuration is admissible with a single active root, and the states entered and not
+exited are exactly the nodes of the configuration tree (active states and all their ancestors) -/
+def invOK (cfg : NCfg) (g : G) (conf : Forest) : Bool :=
+  ConfOK cfg.states conf && conf.len == 1
+  && (g.live.eraseDups.length == g.live.length)
+  && g.live.all conf.nodes.contains && conf.nodes.all g.live.contains
+
 /-- the monitor: bookkeeping over the projected trace, starting from the reported initial configuration -/
 def check (cfg : NCfg) (conf : Forest) (items : List Item) : Bool :=
   (grun cfg (G.init cfg conf) (project cfg items)).clean
@@ -120,7 +198,10 @@ def verdict (cfg : NCfg) (conf : Forest) (items : List Item) : String :=
   if g.clean then "ok" else
     "reject" ++ (if g.enteredWhileLive then " entered-while-active" else "")
       ++ (if g.exitedWhileDead then " exited-while-inactive" else "")
-      ++ (if g.enteredThenExited then " entered-then-exited" else "")
+      ++ (if g.eteStale then " entered-then-exited:source-not-active" else "")
+      ++ (if g.eteReentered then " entered-then-exited:source-re-entered" else "")
+      ++ (if g.eteActive then " entered-then-exited:source-active" else "")
+      ++ (if g.eteRepeated then " entered-then-exited:transition-repeated" else "")
       ++ (if g.enterBeforeParent then " enter-before-parent" else "")
       ++ (if g.exitBeforeChild then " exit-before-child" else "")
       ++ (if g.finBad then " configuration-mismatch" else "")
